@@ -253,7 +253,9 @@ def variants(rng, d):
             put("threshold", dict(n, thresholds=ts[:-1] + [Q(frac(ts[-1]) + 1)]))
             put("nthresholds", dict(n, thresholds=ts + [Q(frac(ts[-1]) + 2)]))
         elif k == "Bag":
-            put("range", dict(n, range={"N": "S", "S": "N", "N2": "N"}[n["range"]], q="c" if n["range"] == "N" else "x"))
+            parent_ = D.node_at(d, path[:-1]) if path else None
+            if parent_ is None or parent_["k"] not in ("Label", "Index"):   # those refuse mixed Bag ranges at construction
+                put("range", dict(n, range={"N": "S", "S": "N", "N2": "N"}[n["range"]], q="c" if n["range"] == "N" else "x"))
         elif k in ("Label", "UntypedLabel"):
             keys = list(n["pairs"])
             put("labelset", dict(n, pairs=dict(n["pairs"], zz=n["pairs"][keys[-1]])))
